@@ -42,8 +42,8 @@ def grids(prog, ctx):
         fn = prog.fn(L + name)
         sx = Symx(prog, fn)
         outs = sx.run()
-        mn, mx = sx.symbol('min', 'double'), sx.symbol('max', 'double')
-        n = sx.symbol('steps', 'unsigned int')
+        mn, mx = sx.symbol(fn.params[0]['name'], 'double'), sx.symbol(fn.params[1]['name'], 'double')
+        n = sx.symbol(fn.params[2]['name'], 'unsigned int')
         main = [o for o in outs if o.kind == 'return' and isinstance(o.value, Arr) and o.value.length is not None and o.value.length.has(n)]
         triv = [o for o in outs if o.kind == 'return' and o not in main]
         ok = len(main) == 1
@@ -305,6 +305,9 @@ def stats(prog, ctx):
     n = Symbol('len(data)', integer=True, nonnegative=True)
     ctx.decide(R, 'Arithmetic_Mean', am, ok, 'sum of all elements (from 0.0) divided by the size', 'Arithmetic_Mean returns %s' % v, form=str(v))
     var = prog.fn(L + 'Variance')
+    vn = var.params[0]['name']
+    n = Symbol('len(%s)' % vn, integer=True, nonnegative=True)
+    D = Function(vn, real=True)
     sx = Symx(prog, var)
     outs = [o for o in sx.run() if o.kind == 'return']
     v = outs[0].value if len(outs) == 1 else None
@@ -312,7 +315,7 @@ def stats(prog, ctx):
     if v is not None:
         Ms = [a for a in v.atoms(sp.core.function.AppliedUndef) if a.func.__name__ == L + 'Arithmetic_Mean']
         sums = list(v.atoms(sp.Sum))
-        if len(Ms) == 1 and len(sums) == 1 and str(Ms[0].args[0]) in ('data', 'arr:data'):
+        if len(Ms) == 1 and len(sums) == 1 and str(Ms[0].args[0]) in (vn, 'arr:' + vn):
             M = Ms[0]
             q = sp.simplify(v / sums[0])
             iv, lo, hi = sums[0].limits[0]
@@ -325,7 +328,7 @@ def stats(prog, ctx):
     ok = False
     if v is not None:
         Vs = [a for a in v.atoms(sp.core.function.AppliedUndef) if a.func.__name__ == L + 'Variance']
-        ok = len(Vs) == 1 and str(Vs[0].args[0]) in ('data', 'arr:data') and is_zero(v - sp.sqrt(Vs[0]))
+        ok = len(Vs) == 1 and str(Vs[0].args[0]) in (sd.params[0]['name'], 'arr:' + sd.params[0]['name']) and is_zero(v - sp.sqrt(Vs[0]))
     ctx.decide(R, 'Standard_Deviation', sd, ok, 'sqrt(Variance(data))', 'Standard_Deviation returns %s' % v)
     weighted(prog, ctx)
     median(prog, ctx)
@@ -384,9 +387,10 @@ def median(prog, ctx):
     if len(ifs) != 1:
         ctx.undecided(R, 'Median', fn, 'expected one even/odd branch')
         return
-    cond = show(ifs[0]['cond']).replace(' ', '')
-    even_first = cond in ('data.size()%2==0',)
-    odd_first = cond in ('data.size()%2==1', 'data.size()%2!=0', 'data.size()%2')
+    dn = fn.params[0]['name']
+    cond = show(ifs[0]['cond']).replace(' ', '').replace(dn + '.size()', 'N')
+    even_first = cond in ('N%2==0', '0==N%2', '!(N%2)', '(N%2)==0', 'N%2!=1')
+    odd_first = cond in ('N%2==1', 'N%2!=0', 'N%2', '1==N%2', '(N%2)!=0', '(N%2)==1')
     if not (even_first or odd_first):
         ctx.undecided(R, 'Median', fn, 'branch condition %s' % cond)
         return
@@ -396,12 +400,12 @@ def median(prog, ctx):
     stm = State({})
     half = sxm.sym({'k': 'Bin', 'op': '/', 'ty': 'unsigned long', 'lhs': {'k': 'Call', 'kind': 'method', 'ty': 'unsigned long', 'args': [],
                     'callee': {'name': 'size', 'cls': 'std::vector', 'q': 'std::vector<double>::size', 'const': True},
-                    'obj': {'k': 'Ref', 'name': 'data', 'rk': 'param', 'id': fn.params[0]['id'], 'ty': 'std::vector<double>'}},
+                    'obj': {'k': 'Ref', 'name': dn, 'rk': 'param', 'id': fn.params[0]['id'], 'ty': 'std::vector<double>'}},
                     'rhs': {'k': 'Lit', 'lk': 'int', 'v': '2', 'ty': 'unsigned long'}}, stm)
 
     def off(e):
         it = sxm.iterator(e, stm)
-        if not it or it[0] != 'data':
+        if not it or it[0] != dn:
             return 'other:' + show(e)
         d = sp.simplify(it[1] - half)
         if d == 0:
@@ -429,7 +433,7 @@ def median(prog, ctx):
                 for c in walk_expr(e):
                     if c.get('k') == 'Call' and (c.get('callee') or {}).get('name') == 'nth_element':
                         a0, a2 = sxm.iterator(c['args'][0], stm), sxm.iterator(c['args'][2], stm)
-                        if a0 and a2 and a0[0] == 'data' and a0[1] == 0 and a2[0] == 'data' and str(a2[1]) == 'len(data)':
+                        if a0 and a2 and a0[0] == dn and a0[1] == 0 and a2[0] == dn and str(a2[1]) == 'len(%s)' % dn:
                             ev.append(('sel', off(c['args'][1]), None))
                         else:
                             ev.append(('sel?', show(c), None))
